@@ -684,7 +684,11 @@ TOP:
 				}
 			}
 		case method != nil:
-			args := root.formReflectArgs(ov, vars, field)
+			args, ea2 := root.formReflectArgs(ov, vars, field, fd, method)
+			if 0 < len(ea2) {
+				ea = append(ea, ea2...)
+				return
+			}
 			mva := method.Call(args)
 			switch len(mva) {
 			case 1:
@@ -703,17 +707,47 @@ TOP:
 	return
 }
 
-func (root *Root) formReflectArgs(ov reflect.Value, vars map[string]interface{}, field *Field) (args []reflect.Value) {
-	args = make([]reflect.Value, 0, len(field.Args)+1)
+func (root *Root) formReflectArgs(
+	ov reflect.Value,
+	vars map[string]interface{},
+	field *Field,
+	fd *FieldDef,
+	method *reflect.Value) (args []reflect.Value, ea []error) {
+
+	// The method gets what a Resolver gets, the declared arguments with
+	// variables replaced and values coerced, one parameter for each declared
+	// argument in the order of the declaration. An argument that is not given
+	// or is null is passed as the zero value of the parameter.
+	vals, ea := root.formArgs(vars, field, fd)
+	if 0 < len(ea) {
+		return nil, ea
+	}
+	mt := method.Type()
+	args = make([]reflect.Value, 0, fd.args.Len()+1)
 	args = append(args, ov)
-	// Build the args by combining provided args and variable values as
-	// appropriate.
-	for _, av := range field.Args {
-		if vr, ok := av.Value.(Var); ok && vars != nil {
-			args = append(args, reflect.ValueOf(vars[string(vr)]))
-		} else {
-			args = append(args, reflect.ValueOf(av.Value))
+	for i, a := range fd.args.list {
+		var pt reflect.Type
+		switch {
+		case i+1 < mt.NumIn()-1 || (i+1 < mt.NumIn() && !mt.IsVariadic()):
+			pt = mt.In(i + 1)
+		case mt.IsVariadic():
+			pt = mt.In(mt.NumIn() - 1).Elem()
+		default:
+			return nil, []error{resWarn(field.line, field.col, "%s has too many arguments for the method bound to it", field.Name)}
 		}
+		var av reflect.Value
+		if v := vals[a.N]; v == nil {
+			av = reflect.Zero(pt)
+		} else if av = reflect.ValueOf(v); !av.Type().AssignableTo(pt) {
+			if !av.Type().ConvertibleTo(pt) || (av.Kind() == reflect.String) != (pt.Kind() == reflect.String) {
+				return nil, []error{resWarn(field.line, field.col, "argument %s, a %T can not be passed as a %s", a.N, v, pt)}
+			}
+			av = av.Convert(pt)
+		}
+		args = append(args, av)
+	}
+	if !mt.IsVariadic() && len(args) != mt.NumIn() {
+		return nil, []error{resWarn(field.line, field.col, "%s has %d arguments, the method bound to it takes %d", field.Name, len(args)-1, mt.NumIn()-1)}
 	}
 	return
 }
